@@ -22,6 +22,7 @@
 use crate::hv::dom;
 use crate::hv::e1::{Act, Case, Ctx, Next, StepObs};
 use crate::hv::isa::{Alu1, Alu2, Fields, Isa, Mode, Sem, Sz, ROWS};
+use crate::hv::sem;
 use crate::hv::shard::{Tier, Unit};
 
 #[derive(Clone, Debug)]
@@ -538,6 +539,41 @@ pub fn units(prop: &'static str, tier: Tier) -> Vec<Unit> {
                 ctx.track_queue = false;
                 ctx.cycles_only = false;
                 crate::hv::panics::eval_log_args(false);
+            }));
+        }
+    }
+    // ---- placements: every instance at every even address around the ends of the regions code can run from
+    //      (an instruction whose words straddle on-chip RAM and the register field behind it is fetchable;
+    //      one that runs off the end of DRAM, the vector area or the register field is refused)
+    {
+        let l = ls[0].clone();
+        let sigma = alphabet(&isa, &l);
+        let victims: Vec<Sym> = sigma.into_iter().filter(|s| s.owners.contains(&prop) && matches!(s.what, What::Code(_))).collect();
+        if !victims.is_empty() {
+            let edges: [u32; 6] = [0x000100, 0x400000, 0x600000, 0xffbf20, 0xffff20, 0xffffea];
+            let dom = format!("{} instances of this property's forms executed at every even address from 12 bytes below to 2 bytes above each of {} region ends/starts (vector area, DRAM, on-chip RAM, internal register field): every placement whose words all lie inside the map must have exactly the reference effect (placements with a word outside the map are C07's subject)", victims.len(), edges.len());
+            units.push(Unit::new("xseq/placements", edges.len() as u64, &dom, move |ctx, chunk| {
+                ctx.cycles_only = prop == "C20";
+                ctx.closed_form_cost = prop == "C20";
+                let e = edges[chunk as usize];
+                let init = init_case(&l);
+                for s in victims.iter() {
+                    if let What::Code(c) = &s.what {
+                        for pc in (e - 12..=e + 2).step_by(2) {
+                            // refused placements (a word outside the map) are C07's subject: what a refused step leaves behind is open
+                            if !(0..c.len() as u32).all(|k| sem::mapped(pc + k)) {
+                                continue;
+                            }
+                            // the charge of a fetch from the internal register field is outside C19/C20 (I/O ranges excluded)
+                            if prop == "C20" && (0..c.len() as u32).any(|k| pc + k >= 0xffff20) {
+                                continue;
+                            }
+                            ctx.run_seq(&init, Act::exec(c, Some(pc)), 1, &mut |_o: &StepObs| Next::Stop);
+                        }
+                    }
+                }
+                ctx.cycles_only = false;
+                ctx.closed_form_cost = false;
             }));
         }
     }
